@@ -236,13 +236,13 @@ class ReedMullerCodeEncoder(LinearBlockCodeEncoder):
                 - Decoded message(s)
                 - Syndrome (difference between closest valid codeword and received word)
         """
-        # Make input a batch
-        if x.dim() == 1:
-            y2d = x.unsqueeze(0)
-            single = True
-        else:
-            y2d = x
-            single = False
+        # Check if the last dimension is a multiple of n
+        if x.shape[-1] % self.code_length != 0:
+            raise ValueError(f"Last dimension size {x.shape[-1]} must be a multiple of the code length {self.code_length}")
+
+        # Make input a batch of single blocks
+        leading_dims = x.shape[:-1]
+        y2d = x.reshape(-1, self.code_length)
         device = y2d.device
 
         # Enumerate all possible messages (2^k of them)
@@ -263,9 +263,7 @@ class ReedMullerCodeEncoder(LinearBlockCodeEncoder):
         pred_cw = cws[best]  # (B, n)
         syndrome = (pred_cw != y2d).float()  # (B, n)
 
-        if single:
-            return decoded[0], syndrome[0]
-        return decoded, syndrome
+        return decoded.reshape(*leading_dims, -1), syndrome.reshape(*leading_dims, -1)
 
     def calculate_syndrome(self, y: torch.Tensor):
         """Return the syndrome (error pattern) for given codeword(s).
